@@ -228,7 +228,7 @@ class C17Machine(RuleBasedStateMachine):
     def teardown(self):
         if self.ok and self.interesting:
             self.REC.nt(self.history)
-        if self.ok and self.REC.evaluations % 25 == 0:
+        if self.ok and self.history and (len(self.REC.samples) < 2 or self.REC.evaluations % 25 == 0):
             self.REC.sample({'history': self.history})
         shutil.rmtree(self.dir, ignore_errors=True)
 
